@@ -570,4 +570,228 @@ example : ∃ kl kr : Nat,
       rcases this with rfl | rfl <;> simp at h <;> grind)
   exact ⟨kl, kr, h⟩
 
+/-! ## histories: every call works on what the previous call returned
+
+  The class "non-empty piece of the lattice `a0 + k * step`, step known" (`OnLattice`) — the
+  hypothesis of the single-call theorems — is closed under each operation, so the theorems apply
+  to every call of a history with the array as it is at that moment; nothing of the past (such as
+  the `start` / `stop` attributes an earlier `extend_dim` wrote) may influence a later call. -/
+
+/-- `extend_dim` keeps the array on its lattice with the step known (for any request that does not
+    raise), keeps every sample and fills the new ones; the array does not shrink -/
+theorem C17_extend_closed {α} (a r : Samples α) (attr start stop : Option Rat) (fill : α) (eps : Rat)
+    (lc rc : Bool) (a0 step : Rat) (hs : 0 < step) (hon : OnLattice a0 step attr a)
+    (h : extendDim a attr start stop fill eps lc rc = .ok r) :
+    OnLattice a0 step attr r ∧ (∀ p ∈ a, p ∈ r) ∧ (∀ p ∈ r, p.1 ∉ coordsOf a → p.2 = fill) ∧
+      a.length ≤ r.length := by
+  obtain ⟨k, n, hreg, hstep⟩ := hon
+  have hne : step ≠ 0 := by grind
+  have hnd : (coordsOf a).Nodup := by rw [hreg]; exact lattice_nodup _ _ _ hne
+  have hkeep := (C17_extend_keeps a r attr start stop fill eps lc rc hnd h).1
+  have hfill := C17_extend_fill a r attr start stop fill eps lc rc h
+  refine ⟨?_, hkeep, hfill, ?_⟩
+  · by_cases hse : start.getD (a0 + (k : Rat) * step) ≤ stop.getD (a0 + (k : Rat) * step + (n : Rat) * step)
+    · rw [extendDim_regular a attr start stop fill eps lc rc _ step n hreg hs hstep hse] at h
+      cases h
+      generalize leftCount (a0 + (k : Rat) * step) step _ = kl
+      generalize rightCount (a0 + (k : Rat) * step + (n : Rat) * step) step _ = kr
+      refine ⟨k - (kl : Int), kl + n + kr, ?_, ?_⟩
+      · rw [coordsOf_reindex]
+        have e : a0 + (((k - (kl : Int) : Int)) : Rat) * step = a0 + (k : Rat) * step - (kl : Rat) * step := by
+          push_cast; grind
+        rw [e]; congr 1; omega
+      · rw [coordsOf_reindex]
+        have e : kl + (n + 1) + kr = (kl + n + kr) + 1 := by omega
+        rw [e]
+        rw [hreg] at hstep
+        refine dimStep_again attr _ _ step n _ hstep ?_
+        cases attr with
+        | some s => simp
+        | none =>
+          right
+          cases n with
+          | zero => simp [dimStep, lattice, diffs] at hstep
+          | succ j => omega
+    · exfalso
+      simp only [extendDim] at h
+      rw [hreg] at h
+      simp only [listMin_lattice _ step n (Rat.le_of_lt hs), listMax_lattice _ step n (Rat.le_of_lt hs),
+        lattice_getLast?] at h
+      have : start.getD (a0 + (k : Rat) * step) > stop.getD (a0 + (k : Rat) * step + (n : Rat) * step) := by grind
+      simp [this] at h
+  · obtain ⟨l, rr, hl⟩ := (C17_extend_keeps a r attr start stop fill eps lc rc hnd h).2
+    have := congrArg List.length hl
+    simp [coordsOf_length] at this
+    omega
+
+
+/-- `crop_dim` returns a contiguous block of the samples, again on the lattice; the step stays known
+    when it is an attribute (and the block is not empty) or the block has at least two samples -/
+theorem C17_crop_closed {α} (a r : Samples α) (attr start stop : Option Rat) (eps : Rat) (lc rc : Bool)
+    (a0 step : Rat) (hs : 0 < step) (hon : OnLattice a0 step attr a)
+    (h : cropDim a start stop lc rc eps = .ok r) (hsize : (attr.isSome ∧ r ≠ []) ∨ 2 ≤ r.length) :
+    OnLattice a0 step attr r ∧ ∃ i k, r = (a.drop i).take k := by
+  obtain ⟨k, n, hreg, hstep⟩ := hon
+  have hsel : ∃ lo hi, r = selectRange a lo hi := by
+    simp only [cropDim] at h
+    split at h
+    · split at h
+      · simp at h
+      · split at h
+        · simp at h
+        · exact ⟨_, _, (Except.ok.inj h).symm⟩
+    · simp at h
+  obtain ⟨lo, hi, rfl⟩ := hsel
+  obtain ⟨i, kk, hik, hc⟩ := selectRange_lattice a lo hi _ step (n + 1) (Rat.le_of_lt hs) hreg
+  refine ⟨?_, i, kk, hik⟩
+  have hlen : (selectRange a lo hi).length = min kk (n + 1 - i) := by
+    rw [← coordsOf_length, hc, lattice_length]
+  obtain ⟨m, hm⟩ : ∃ m, min kk (n + 1 - i) = m + 1 := by
+    refine ⟨min kk (n + 1 - i) - 1, ?_⟩
+    have : 1 ≤ (selectRange a lo hi).length := by
+      rcases hsize with ⟨_, hne⟩ | h2
+      · exact List.length_pos_iff.mpr hne
+      · omega
+    omega
+  refine ⟨k + (i : Int), m, ?_, ?_⟩
+  · rw [hc, hm]
+    congr 1; push_cast; grind
+  · rw [hc, hm]
+    rw [hreg] at hstep
+    refine dimStep_again attr _ _ step n _ hstep ?_
+    rcases hsize with ⟨ha, _⟩ | h2
+    · left; exact ha
+    · right; omega
+
+
+/-- `adjust_dim_width` returns exactly `width` samples, again on the lattice with the step known -/
+theorem C17_width_closed {α} (a r : Samples α) (attr : Option Rat) (w : Int) (fill : α) (pos : Option Pos)
+    (a0 step : Rat) (hs : 0 < step) (hon : OnLattice a0 step attr a)
+    (h : adjustWidth a attr w fill pos = .ok r) (hsize : attr.isSome ∨ 2 ≤ r.length) :
+    OnLattice a0 step attr r ∧ r.length = w.toNat := by
+  obtain ⟨k, n, hreg, hstep⟩ := hon
+  have hne : step ≠ 0 := by grind
+  have hlen : a.length = n + 1 := by rw [← coordsOf_length, hreg, lattice_length]
+  have hw : 1 ≤ w := by
+    simp only [adjustWidth] at h
+    split at h
+    · simp at h
+    · omega
+  cases pos with
+  | none =>
+    simp only [adjustWidth, cropWidth, extendWidth] at h
+    have h1 : ¬ w < 1 := by omega
+    simp only [h1, if_false] at h
+    split at h
+    · rename_i heq
+      cases h
+      exact ⟨⟨k, n, hreg, hstep⟩, heq.symm⟩
+    · split at h
+      · split at h <;> simp at h
+      · split at h
+        · split at h
+          · simp at h
+          · split at h
+            · simp at h
+            · split at h <;> simp at h
+        · simp at h
+  | some p =>
+    have hc := C17_regular_axis_continues a r attr w fill p _ step n hreg hne hstep hw h
+    have hl : r.length = w.toNat := by rw [← coordsOf_length, hc, lattice_length]
+    refine ⟨?_, hl⟩
+    obtain ⟨m, hm⟩ : ∃ m, w.toNat = m + 1 := ⟨w.toNat - 1, by omega⟩
+    rw [hm] at hc
+    have hd : dimStep attr (coordsOf r) = .ok (some step) := by
+      rw [hc]
+      rw [hreg] at hstep
+      refine dimStep_again attr _ _ step n _ hstep ?_
+      rcases hsize with ha | h2
+      · left; exact ha
+      · right; omega
+    by_cases hle : m + 1 ≤ n + 1
+    · refine ⟨k + (cropOffset (n + 1) (m + 1) p : Int), m, ?_, hd⟩
+      rw [hc]; simp only [hle, if_true]
+      congr 1; push_cast; grind
+    · refine ⟨k - (padLeft (m + 1 - (n + 1)) p : Int), m, ?_, hd⟩
+      rw [hc]; simp only [hle, if_false]
+      congr 1; push_cast; grind
+
+
+/-- one call of a history keeps the array in the class the single-call theorems speak about -/
+theorem C17_step_closed {α} (a r : Samples α) (attr : Option Rat) (s : Step α) (a0 step : Rat) (hs : 0 < step)
+    (hon : OnLattice a0 step attr a) (h : applyStep attr a s = .ok r)
+    (hsize : (attr.isSome ∧ r ≠ []) ∨ 2 ≤ r.length) : OnLattice a0 step attr r := by
+  cases s with
+  | crop start stop lc rc eps => exact (C17_crop_closed a r attr start stop eps lc rc a0 step hs hon h hsize).1
+  | extend start stop fill eps lc rc => exact (C17_extend_closed a r attr start stop fill eps lc rc a0 step hs hon h).1
+  | width w fill pos =>
+    refine (C17_width_closed a r attr w fill pos a0 step hs hon h ?_).1
+    rcases hsize with ⟨ha, _⟩ | h2
+    · left; exact ha
+    · right; exact h2
+
+/-- **histories** (axis with a `step` attribute): whatever sequence of `crop_dim` / `extend_dim` /
+    `adjust_dim_width` calls is applied, each to the result of the previous one, every array a call
+    returns is empty or again a non-empty piece of the *same* lattice `a0 + k * step` with its step
+    known — so `C17_crop_exact`, `C17_extend_exact`, `C17_width`, `C17_placement` apply to every call of
+    the history, with the array as it is at that moment.  (`runChain` feeds call `k` with the model
+    result of call `k - 1` by definition.) -/
+theorem C17_history_on_lattice {α} (a0 step : Rat) (hs : 0 < step) (steps : List (Step α)) (a : Samples α)
+    (hon : a = [] ∨ OnLattice a0 step (some step) a) :
+    ∀ r, .ok r ∈ runChain (some step) a steps → r = [] ∨ OnLattice a0 step (some step) r := by
+  induction steps generalizing a with
+  | nil => intro r hr; simp [runChain] at hr
+  | cons s rest ih =>
+    intro r hr
+    simp only [runChain] at hr
+    split at hr
+    · simp at hr
+    · rename_i r1 h1
+      have hP : r1 = [] ∨ OnLattice a0 step (some step) r1 := by
+        rcases hon with rfl | hon
+        · obtain ⟨e, he⟩ := applyStep_nil (some step) s
+          rw [he] at h1; cases h1
+        · by_cases hnil : r1 = []
+          · left; exact hnil
+          · right
+            exact C17_step_closed a r1 (some step) s a0 step hs hon h1 (Or.inl ⟨rfl, hnil⟩)
+      rcases List.mem_cons.mp hr with heq | hmem
+      · cases heq; exact hP
+      · exact ih r1 hP r hmem
+
+/-- `extend_dim` after `extend_dim` (each with its own request, fill value and closedness): the
+    result is again on the lattice of the original axis with its step known, every original sample
+    is still there with its datum, and every other sample holds one of the two fill values -/
+theorem C17_extend_twice {α} (a r1 r2 : Samples α) (attr s1 e1 s2 e2 : Option Rat) (f1 f2 : α) (eps1 eps2 : Rat)
+    (lc1 rc1 lc2 rc2 : Bool) (a0 step : Rat) (hs : 0 < step) (hon : OnLattice a0 step attr a)
+    (h1 : extendDim a attr s1 e1 f1 eps1 lc1 rc1 = .ok r1)
+    (h2 : extendDim r1 attr s2 e2 f2 eps2 lc2 rc2 = .ok r2) :
+    OnLattice a0 step attr r2 ∧ (∀ p ∈ a, p ∈ r2) ∧
+      (∀ p ∈ r2, p.1 ∉ coordsOf a → p.2 = f1 ∨ p.2 = f2) ∧ a.length ≤ r2.length := by
+  obtain ⟨hon1, hk1, hf1, hl1⟩ := C17_extend_closed a r1 attr s1 e1 f1 eps1 lc1 rc1 a0 step hs hon h1
+  obtain ⟨hon2, hk2, hf2, hl2⟩ := C17_extend_closed r1 r2 attr s2 e2 f2 eps2 lc2 rc2 a0 step hs hon1 h2
+  refine ⟨hon2, fun p hp => hk2 p (hk1 p hp), ?_, by omega⟩
+  intro p hp hnew
+  by_cases hold : p.1 ∈ coordsOf r1
+  · left
+    obtain ⟨cs, rfl⟩ := extendDim_is_reindex r1 r2 attr s2 e2 f2 eps2 lc2 rc2 h2
+    obtain ⟨k, n, hreg, _⟩ := hon1
+    have hnd : (coordsOf r1).Nodup := by rw [hreg]; exact lattice_nodup _ _ _ (by grind)
+    exact hf1 p (reindex_old_is_old hnd hp hold) hnew
+  · right; exact hf2 p hp hold
+
+
+-- a history evaluated: extend, crop inside the extended axis, extend again (each on the previous result)
+example : runChain (some 1) [((0 : Rat), (1 : Int)), (1, 2)]
+      [.extend (some (-2)) none 0 (1/1024) true false, .crop (some (-1)) (some 1) true true (1/1024),
+       .extend none (some 3) 9 (1/1024) true true]
+    = [.ok [(-2, 0), (-1, 0), (0, 1), (1, 2)], .ok [(-1, 0), (0, 1), (1, 2)],
+       .ok [(-1, 0), (0, 1), (1, 2), (2, 9), (3, 9)]] := by decide +kernel
+example : runChain (some 1) [((0 : Rat), (1 : Int)), (1, 2)]
+      [.width 4 0 (some .center), .crop (some 3) (some 5) true true (1/1024), .width 2 0 (some .start)]
+    = [.ok [(-1, 0), (0, 1), (1, 2), (2, 0)], .error .invalid] := by decide +kernel
+example : OnLattice 0 1 (some 1) [((0 : Rat), (1 : Int)), (1, 2)] := ⟨0, 1, by decide +kernel, by decide +kernel⟩
+example : OnLattice (1/4) (1/2) none [((-3/4 : Rat), (1 : Int)), (-1/4, 2), (1/4, 3)] :=
+  ⟨-2, 2, by decide +kernel, by decide +kernel⟩
+
 end SE.Proofs.C17
